@@ -1,8 +1,5 @@
 (* C08 — Panics, deferred calls, recover and run-time errors follow the spec.
-   Where a finding has since been repaired in /repo the model keeps BOTH shapes; the check probes the
-   source on every run (Gen/C08_Consts: gen_goexit_rethrow, gen_substring_defaults_high,
-   gen_string_index_checked) and compares the real code with the shape it finds.  The _refuted theorems
-   below are about the unrepaired shape; still open: replaced-panic-resurrected-after-recover.
+   Theorems are stated for the CURRENT code; historic (unrepaired) shapes live in Model/Proofs only.
    ONLY property theorems (closed by [exact lemma]) + Print Assumptions.
    Models: Model/C08_Guards.v (part A), Model/C08_Panic.v (part B).
    Tie: harness/py/props/c08.py. *)
@@ -27,15 +24,11 @@ Theorem C08_index_guard_throws_iff : forall i len, impl_index i len = GThrow <->
 Proof. exact index_throws_iff. Qed.
 Print Assumptions C08_index_guard_throws_iff.
 
-(* s[i] on a string — full statement: forall i len, impl_strindex i len = spec_index i len.  FALSE
-   (finding string-index-out-of-range-no-panic: no guard is emitted); true exactly in range. *)
-Definition C08_string_index_full_statement : Prop := forall i len, impl_strindex i len = spec_index i len.
-Theorem C08_string_index_guard_partial : forall i len, 0 <= i < len -> impl_strindex i len = spec_index i len.
-Proof. exact strindex_in_range. Qed.
-Print Assumptions C08_string_index_guard_partial.
-Theorem C08_string_index_refuted : forall i len, ~ (0 <= i < len) -> impl_strindex i len <> spec_index i len.
-Proof. exact strindex_refuted. Qed.
-Print Assumptions C08_string_index_refuted.
+(* s[i] on a string: emitted through rangeCheck like any other index (a constant index is only
+   left unchecked against a constant string, which go/types checks) *)
+Theorem C08_string_index_guard_fires_iff_spec : forall i len, impl_index i len = spec_index i len.
+Proof. exact index_guard_iff. Qed.
+Print Assumptions C08_string_index_guard_fires_iff_spec.
 
 Theorem C08_index_const_guard_fires_iff_spec : forall i len, 0 <= i -> impl_index_const i len = spec_index i len.
 Proof. exact index_const_guard_iff. Qed.
@@ -51,30 +44,11 @@ Theorem C08_subslice_guard_throws_iff : forall offset len cap low h m,
 Proof. exact subslice_throws_iff. Qed.
 Print Assumptions C08_subslice_guard_throws_iff.
 
-Theorem C08_substring_guard_fires_iff_spec : forall len low h,
-  impl_substring len low (Some h) = spec_substring len low (Some h).
-Proof. exact substring_guard_iff. Qed.
-Print Assumptions C08_substring_guard_fires_iff_spec.
-
-(* s[low:] — full statement: forall len low, 0 <= len -> impl = spec.  It is FALSE
-   (finding string-slice-low-beyond-len-no-panic); proved outside that input class
-   and refuted on all of it. *)
-Definition C08_substring_open_full_statement : Prop :=
-  forall len low, 0 <= len -> impl_substring len low None = spec_substring len low None.
-Theorem C08_substring_open_guard_fires_iff_spec_partial : forall len low, 0 <= len -> low <= len ->
-  impl_substring len low None = spec_substring len low None.
-Proof. exact substring_open_guard_iff. Qed.
-Print Assumptions C08_substring_open_guard_fires_iff_spec_partial.
-Theorem C08_substring_open_refuted : forall len low, 0 <= len < low ->
-  impl_substring len low None <> spec_substring len low None.
-Proof. exact substring_open_refuted. Qed.
-Print Assumptions C08_substring_open_refuted.
-
-(* the repaired $substring (high defaults to str.length before the check) satisfies the full statement *)
-Theorem C08_substring_repaired_guard_fires_iff_spec : forall len low high,
+(* $substring(str, low, high) with high defaulting to str.length: all three forms s[l:h], s[l:], s[:h] *)
+Theorem C08_substring_guard_fires_iff_spec : forall len low high,
   impl_substring_fixed len low high = spec_substring len low high.
 Proof. exact substring_fixed_guard_iff. Qed.
-Print Assumptions C08_substring_repaired_guard_fires_iff_spec.
+Print Assumptions C08_substring_guard_fires_iff_spec.
 
 Theorem C08_makeslice_guard_fires_iff_spec : forall len cap, impl_makeslice len cap = spec_makeslice len cap.
 Proof. exact makeslice_guard_iff. Qed.
@@ -110,52 +84,19 @@ Proof. exact wrap32_id_signed. Qed.
 Print Assumptions C08_quo_value_exact_signed.
 
 (* ======================= part B: unwinding machine ========================== *)
+(* ImplPanic has three variant flags (Model/C08_Panic.v [variant]); the check probes the source and
+   evaluates the shape it finds.  V_GOEXIT = /repo HEAD (Goexit repaired), V_REPAIRED = HEAD + the
+   replaced-panic repair (branch fixes2), V_FULL = additionally the $goroutine catch-clause repair. *)
 
-(* Full statement: ImplPanic refines SpecPanic on every defer program.  FALSE:
-   refuted by the two findings below. *)
-Definition C08_impl_refines_spec_panic_full_statement : Prop :=
-  forall gx p, impl_refines_spec_on gx p.
-
-Theorem C08_replaced_panic_refuted :
-  obs (spec_run 100 wit_replaced) = Some ([ERec (Some (PInt 2)); ETraceX 0 0], FNormal) /\
-  obs (impl_run false 100 wit_replaced) = Some ([ERec (Some (PInt 2))], FFatal (PInt 1)).
-Proof. exact wit_replaced_runs. Qed.
-Print Assumptions C08_replaced_panic_refuted.
-
-Theorem C08_goexit_refuted :
-  obs (spec_run 100 wit_goexit) = Some ([ETrace 1], FNormal) /\
-  obs (impl_run false 100 wit_goexit) = Some ([ETrace 1; ETrace 9; ETraceX 0 0], FNormal).
-Proof. exact wit_goexit_runs. Qed.
-Print Assumptions C08_goexit_refuted.
-
-Theorem C08_deferred_call_skipped_refuted :
-  obs (spec_run 100 wit_skipped) = Some ([ERec (Some (PInt 2)); ERec None; ETrace 0; ETraceX 0 0], FNormal) /\
-  obs (impl_run false 100 wit_skipped) = Some ([ERec (Some (PInt 2)); ERec (Some (PInt 1)); ETraceX 0 0], FNormal).
-Proof. exact wit_skipped_runs. Qed.
-Print Assumptions C08_deferred_call_skipped_refuted.
-
-(* defer_lifo: in ImplPanic, for EVERY program and every amount of fuel, the events of each
-   $deferred list replay as a stack ([pend] is defined, and what is still pending is exactly
-   what is still in the list): a deferred call is run only when it is the most recently
-   pushed pending call of its activation — LIFO order, each call at most once, on normal
-   return, panic and Goexit alike. *)
-Theorem C08_impl_defer_lifo_at_most_once : forall gx fuel p out s,
-  impl_fun gx fuel p 0 0 wrapper j_init = Some (out, s) ->
+(* defer_lifo, unbounded: for EVERY program, every amount of fuel and every variant, the events of
+   each $deferred list replay as a stack ([pend] is defined, and what is still pending is exactly what
+   is still in the list): a deferred call is run only when it is the most recently pushed pending call
+   of its activation — LIFO order, each call at most once, on normal return, panic and Goexit alike. *)
+Theorem C08_impl_defer_lifo_at_most_once : forall vr fuel p out s,
+  impl_fun vr fuel p 0 0 wrapper j_init = Some (out, s) ->
   forall id, pend id (j_trace s) = Some (heights (length (list_get (j_lists s) id))).
 Proof. exact impl_defer_lifo_at_most_once. Qed.
 Print Assumptions C08_impl_defer_lifo_at_most_once.
-
-(* Full statement of defer_lifo_once: ... and at the end of the run nothing is pending
-   (every pushed call has run exactly once).  FALSE for ImplPanic in general
-   (C08_deferred_call_skipped_refuted); proved on the exhaustively enumerated class. *)
-Definition C08_defer_lifo_once_full_statement : Prop :=
-  forall gx fuel p out s, impl_fun gx fuel p 0 0 wrapper j_init = Some (out, s) ->
-  forall id, pend id (j_trace s) = Some [].
-Theorem C08_defer_lifo_once_partial : forall p, enumerated p ->
-  exists out s, impl_fun false ENUM_FUEL p 0 0 wrapper j_init = Some (out, s) /\
-    forall id, (id < j_next s)%nat -> pend id (j_trace s) = Some [].
-Proof. exact defer_lifo_once_bounded. Qed.
-Print Assumptions C08_defer_lifo_once_partial.
 
 (* recover_legal_iff, the part that is proved: the numeric stack-depth test of $recover is
    equivalent to "called directly by the deferred function which the $callDeferred invocation
@@ -172,36 +113,75 @@ Theorem C08_recover_legal_iff_partial : forall D o n m s,
 Proof. exact recover_depth_test_iff. Qed.
 Print Assumptions C08_recover_legal_iff_partial.
 
-(* impl_refines_spec_panic, bounded: on all 201 322 enumerated programs (one function with <= 2
-   statements over 79 shapes, <= 5 statements over 11 shapes; two functions with call / defer /
-   panics in the callee) in which no Goexit occurs and no panic is raised inside deferred-call
-   code, both machines terminate with the same observable trace and final status. *)
-Theorem C08_impl_refines_spec_panic_partial : forall p, enumerated p ->
-  exists r, obs (spec_run ENUM_FUEL p) = Some r /\ obs (impl_run false ENUM_FUEL p) = Some r.
-Proof. exact impl_refines_spec_bounded. Qed.
-Print Assumptions C08_impl_refines_spec_panic_partial.
+(* Full statements (for a variant vr): ImplPanic refines SpecPanic on every defer program, and at
+   the end of every run nothing is pending (each pushed deferred call ran exactly once). *)
+Definition C08_impl_refines_spec_panic_full_statement (vr : variant) : Prop :=
+  forall p, impl_refines_spec_on vr p.
+Definition C08_defer_lifo_once_full_statement (vr : variant) : Prop :=
+  forall fuel p out s, impl_fun vr fuel p 0 0 wrapper j_init = Some (out, s) ->
+  forall id, pend id (j_trace s) = Some [].
 
-(* The repair of goexit-swallowed-by-deferring-frame (goexit_rethrow = true: Goexit records
-   exitFrames = deferStack.length; an exhausted $deferred list re-throws null while the goroutine is
-   exiting and deferStack.length < exitFrames): on the 25 155 enumerated two-function programs with
-   Goexit in function bodies and in deferred calls, with deferred calls that call functions having
-   defers while the goroutine is exiting, the repaired machine equals SpecPanic and every pushed
-   deferred call runs exactly once. *)
-Theorem C08_goexit_repaired_partial : forall p, In p enum5 ->
-  exists r, obs (spec_run ENUM_FUEL p) = Some r /\ obs (impl_run true ENUM_FUEL p) = Some r.
-Proof. exact goexit_repaired_bounded. Qed.
-Print Assumptions C08_goexit_repaired_partial.
-(* the two Goexit witnesses under the repaired variant *)
-Theorem C08_goexit_repaired_witnesses :
-  obs (spec_run 100 wit_goexit_fixed) = Some ([ETrace 3; ETrace 5], FNormal) /\
-  obs (impl_run true 100 wit_goexit_fixed) = Some ([ETrace 3; ETrace 5], FNormal) /\
-  obs (impl_run true 100 wit_goexit) = obs (spec_run 100 wit_goexit).
-Proof. exact wit_goexit_fixed_runs. Qed.
-Print Assumptions C08_goexit_repaired_witnesses.
+(* ---- /repo HEAD (V_GOEXIT) ---- bounded: the 226 477 enumerated programs [enum_calm] — one function
+   with <= 2 statements over 79 shapes or <= 5 statements over 11 shapes; two functions with call /
+   defer / panics in the callee; Goexit in function bodies and deferred calls across two functions,
+   with deferred calls that call functions having defers while the goroutine exits — in which no
+   panic is raised inside deferred-call code: equal observable trace and final status, and every
+   pushed deferred call runs exactly once. *)
+Theorem C08_impl_refines_spec_panic_partial : forall p, In p enum_calm ->
+  exists r, obs (spec_run ENUM_FUEL p) = Some r /\ obs (impl_run V_GOEXIT ENUM_FUEL p) = Some r.
+Proof. exact refines_calm. Qed.
+Print Assumptions C08_impl_refines_spec_panic_partial.
+Theorem C08_defer_lifo_once_partial : forall p, In p enum_calm ->
+  exists out s, impl_fun V_GOEXIT ENUM_FUEL p 0 0 wrapper j_init = Some (out, s) /\
+    forall id, (id < j_next s)%nat -> pend id (j_trace s) = Some [].
+Proof. exact lifo_once_calm. Qed.
+Print Assumptions C08_defer_lifo_once_partial.
+
+(* the two findings that are still open on HEAD refute the full statements for V_GOEXIT *)
+Theorem C08_replaced_panic_refuted :
+  obs (spec_run 100 wit_replaced) = Some ([ERec (Some (PInt 2)); ETraceX 0 0], FNormal) /\
+  obs (impl_run V_GOEXIT 100 wit_replaced) = Some ([ERec (Some (PInt 2))], FFatal (PInt 1)).
+Proof. split; [exact (proj1 wit_replaced_runs) | exact wit_replaced_goexit_variant]. Qed.
+Print Assumptions C08_replaced_panic_refuted.
+Theorem C08_panic_during_goexit_swallowed_refuted :
+  obs (spec_run 100 wit_goexit_panic) = Some ([], FFatal (PInt 2)) /\
+  obs (impl_run V_GOEXIT 100 wit_goexit_panic) = Some ([], FNormal).
+Proof. exact wit_goexit_panic_cur. Qed.
+Print Assumptions C08_panic_during_goexit_swallowed_refuted.
+
+(* ---- HEAD + replaced-panic repair (V_REPAIRED, branch fixes2) ---- bounded: [enum_all] = enum_calm
+   plus 103 250 programs with panics raised INSIDE deferred calls (replaced panics, re-panic after
+   recover, panic in a helper of a deferred call, nested deferred recover; one function with <= 4
+   statements over 16 shapes, two functions that call / defer each other and both panic). *)
+Theorem C08_impl_refines_spec_panic_repaired_partial : forall p, In p enum_all ->
+  exists r, obs (spec_run ENUM_FUEL p) = Some r /\ obs (impl_run V_REPAIRED ENUM_FUEL p) = Some r.
+Proof. exact refines_all. Qed.
+Print Assumptions C08_impl_refines_spec_panic_repaired_partial.
+Theorem C08_defer_lifo_once_repaired_partial : forall p, In p enum_all ->
+  exists out s, impl_fun V_REPAIRED ENUM_FUEL p 0 0 wrapper j_init = Some (out, s) /\
+    forall id, (id < j_next s)%nat -> pend id (j_trace s) = Some [].
+Proof. exact lifo_once_all. Qed.
+Print Assumptions C08_defer_lifo_once_repaired_partial.
+
+(* ---- all three repairs (V_FULL) ---- bounded: [enum_full] = enum_all plus 4 681 one-function
+   programs mixing Goexit with panics in deferred calls. *)
+Theorem C08_impl_refines_spec_panic_full_repair_partial : forall p, In p enum_full ->
+  exists r, obs (spec_run ENUM_FUEL p) = Some r /\ obs (impl_run V_FULL ENUM_FUEL p) = Some r.
+Proof. exact refines_full. Qed.
+Print Assumptions C08_impl_refines_spec_panic_full_repair_partial.
+
+(* the witnesses of the repaired findings now behave as in Go *)
+Theorem C08_repaired_witnesses :
+  obs (impl_run V_GOEXIT 100 wit_goexit) = obs (spec_run 100 wit_goexit) /\
+  obs (impl_run V_GOEXIT 100 wit_goexit_fixed) = obs (spec_run 100 wit_goexit_fixed) /\
+  obs (impl_run V_REPAIRED 100 wit_replaced) = obs (spec_run 100 wit_replaced) /\
+  obs (impl_run V_REPAIRED 100 wit_skipped) = obs (spec_run 100 wit_skipped) /\
+  obs (spec_run 100 wit_skipped) = Some ([ERec (Some (PInt 2)); ERec None; ETrace 0; ETraceX 0 0], FNormal).
+Proof. exact witnesses_repaired. Qed.
+Print Assumptions C08_repaired_witnesses.
 
 Theorem C08_enumeration_sizes :
-  N.of_nat (length enum1) = 6321%N /\ N.of_nat (length enum2) = 177156%N /\
-  N.of_nat (length enum3) = 11137%N /\ N.of_nat (length enum4) = 6708%N /\ N.of_nat (length enum5) = 25155%N.
+  N.of_nat (length enum_calm) = 226477%N /\ N.of_nat (length enum_all) = 329727%N /\ N.of_nat (length enum_full) = 334408%N.
 Proof. exact enum_sizes. Qed.
 Print Assumptions C08_enumeration_sizes.
 
@@ -215,6 +195,6 @@ Example C08_nonvacuous :
   impl_makeslice 2147483648 None = GThrow /\
   impl_quo true (-2147483648) (-1) = GOk [-2147483648] /\
   let p := [[SDeferClo [SRecover; SSetR 7]; SDeferClo [SCallClo [SRecover]]; SDefer 1%nat; SSetX 4; SPanic (PRt 0)]; [STraceX]] in
-  obs (impl_run false 100 p) = Some ([ETraceX 0 0; ERec None; ERec (Some (PRt 0)); ETraceX 7 0], FNormal) /\
-  obs (spec_run 100 p) = obs (impl_run false 100 p).
+  obs (impl_run V_GOEXIT 100 p) = Some ([ETraceX 0 0; ERec None; ERec (Some (PRt 0)); ETraceX 7 0], FNormal) /\
+  obs (spec_run 100 p) = obs (impl_run V_GOEXIT 100 p).
 Proof. vm_compute. repeat split; reflexivity. Qed.
